@@ -26,6 +26,7 @@ var stmtForms = []string{
 	"h1(a)", "var x=h1(1)", "let y=a", "const z=b", "var {p,q=2}=a||{}", "var [m,n]=[a,b]", "if(a)h1(2)", "if(a)h1(3);else h1(4)", "return a", "return", "throw b",
 	"for(var i=0;i<2;i++)h1(i)", "for(var k in {u:1})h1(k)", "for(const v of [a,b])h1(v)", "while(h2())h1(5)", "do h1(6);while(h2())", "switch(a){case 1:h1(7);case 2:h1(8);break;default:h1(9)}",
 	"try{h1(a.p)}catch(e){h1(e instanceof TypeError)}finally{h1(10)}", "try{h1(11)}catch{h1(12)}", "{h1(13);let a=1;h1(a)}", "l:for(;;){h1(14);break l}", "l2:{h1(15);if(a)break l2;h1(16)}",
+	"if(h1(21)+1){}", "if(h1(22)<h1(23));", "if(a in b){}", "var {dd=h1(24)+1}={}",
 	"function g(){return h1(17)}h1(g())", "class C{m(){return h1(18)}}h1(new C().m())", ";", "a=b", "b=h1(19)", "w=a?1:2", "h1(typeof w)", "if(a){h1(20)}else{}", "if(a);else h1(21)", "for(;h2();)h1(22)", "var x", "h1(x)",
 }
 
